@@ -372,11 +372,13 @@ namespace {
       xdata.add_flags(POST_EXT_COMPOUND);
       break;
 
+    case value_t::VOID:
+      break;
+
     case value_t::DATETIME:
     case value_t::DATE:
     default:
-      assert(false);
-      break;
+      throw_(calc_error, _f("Cannot use %1% as the amount of a posting") % value.label());
     }
 
     if (! total.is_null())
